@@ -102,6 +102,26 @@ def check(ctx):
             )
     ctx.floor("C11-d", n, 30, "fluid functions")
 
+    # ---- C11-f integer arrays: no integer-typed intermediate can leave the int32 range before promotion to float
+    from .. import intrange
+
+    if not intrange.selftest():
+        raise AnalysisError("integer-range analysis failed its built-in example")
+    nf_ = 0
+    for mn in ("bluebonnet.fluids.oil", "bluebonnet.fluids.water"):
+        m = P.module(mn)
+        for fi in m.functions.values():
+            if "pressure" not in fi.params:
+                continue
+            nf_ += 1
+            fs = intrange.analyse_function(fi.node)
+            ctx.check(
+                not fs, "C11-f", fi.qualname + ":integer intermediates", fi.where(),
+                "with an integer pressure array (int32) and integer scalars, every product/power formed before a float operand joins stays below 2^31 over the declared input box (|p| <= 30000 psia, |T| <= 1000 F): numpy would wrap silently where the scalar call does not",
+                signature="; ".join(x.expr for x in fs)[:160], overflowing=[f"line {x.node.lineno}: {x.expr} may reach {x.bound:.3g}" for x in fs],
+            )
+    ctx.floor("C11-f", nf_, 12, "pressure-taking correlations")
+
     # ---- C11-e Fluid wrappers
     from .c19 import check_delegation
 
